@@ -13,7 +13,7 @@ from ..runner import Collector, Outcome, hyp_run, hyp_shrink
 ID = "C03"
 LEVEL = "exploration"
 RULE = (
-    "case = (ordered supported-version list, preferred version, server answer, #notifications before the answer, tracked client or not, optionally a slow-reading server or a second handshake of the same process overlapping on another connection); "
+    "case = (ordered supported-version list, preferred version, server answer, #notifications before the answer, tracked client or not, optionally a slow-reading server or a second handshake of the same process overlapping on another connection; sequences of 2..3 handshakes over one connection); "
     "enumerated exhaustively: all 258 non-empty lists of length<=3 (duplicates allowed) over a universe of 3 real + 3 invented versions x 8 preferred "
     "values (each universe member, None, '') x every answer class (each universe member, an unsupported well-formed date, 6 malformed results, "
     "JSON-RPC errors of each named code incl. -32602 with/without 'protocol version' text, silence); Hypothesis adds longer lists and arbitrary version strings; "
@@ -73,6 +73,8 @@ def check(case: Dict[str, Any]) -> Outcome:
     from chuk_mcp.protocol.messages.initialize.send_messages import send_initialize, send_initialize_with_client_tracking
     from chuk_mcp.protocol.types.errors import VersionMismatchError
 
+    if case.get("repeat"):
+        return check_repeat(case)
     out = Outcome()
     L: List[str] = list(case["supported"])
     preferred = case.get("preferred")
@@ -233,6 +235,92 @@ def check(case: Dict[str, Any]) -> Outcome:
     return out
 
 
+def check_repeat(case: Dict[str, Any]) -> Outcome:
+    """several handshakes one after the other over the SAME connection (re-negotiation): each successful one must put
+    exactly one initialized notification on the wire, after its own answer; a failed one none."""
+    import asyncio
+
+    from chuk_mcp.protocol.messages.initialize.send_messages import send_initialize
+    from chuk_mcp.protocol.messages.json_rpc_message import parse_message
+    from chuk_mcp.protocol.types.errors import VersionMismatchError
+
+    out = Outcome()
+    rounds: List[Dict[str, Any]] = case["repeat"]  # [{supported, preferred, answer}]
+    outcomes: List[Any] = []
+    marks: List[int] = []  # number of messages written when each round ended
+
+    async def side(res_, rec_):
+        n_req = {"n": 0}
+
+        def on_send(item):
+            w = item.model_dump(exclude_none=True) if hasattr(item, "model_dump") else item
+            if isinstance(w, dict) and w.get("method") == "initialize":
+                k = n_req["n"]
+                n_req["n"] += 1
+                ans = rounds[k]["answer"] if k < len(rounds) else {"kind": "silence"}
+                wire = build_answer(ans)
+                if wire is not None:
+                    wire = dict(wire, id=w["id"])
+                    asyncio.get_running_loop().call_later(T_ANS, res_.inject, parse_message(wire))
+
+        rec_.on_send = on_send
+        await asyncio.sleep(3600)
+
+    holder: Dict[str, Any] = {}
+
+    async def call(r, w):
+        for rd in rounds:
+            try:
+                v = await send_initialize(r, w, timeout=T, supported_versions=list(rd["supported"]), preferred_version=rd.get("preferred"))
+                outcomes.append(("return", getattr(v, "protocolVersion", None)))
+            except Exception as e:  # noqa
+                outcomes.append(("raise", e))
+            await asyncio.sleep(0.01)
+            marks.append(holder["rec"]())
+        return None
+
+    def grab(res_, rec_):
+        holder["rec"] = lambda: len(rec_.items)
+        return side(res_, rec_)
+
+    res = drive(call, [], side=grab, max_vtime=len(rounds) * (T + 1) + 10)
+    out.nontrivial = True
+    out.classes = ("repeated-handshake", f"rounds:{len(rounds)}")
+    if res.outcome != "return" or len(outcomes) != len(rounds):
+        out.fail("repeated-handshake-did-not-finish", f"{res.outcome} {res.exc!r} outcomes={outcomes!r}")
+        return out
+    writes = [w for _, w in res.written]
+    lo = 0
+    for k, (rd, oc, hi) in enumerate(zip(rounds, outcomes, marks)):
+        seg = writes[lo:hi]
+        lo = hi
+        inits = [w for w in seg if isinstance(w, dict) and w.get("method") == "notifications/initialized"]
+        reqs = [w for w in seg if isinstance(w, dict) and w.get("method") == "initialize"]
+        L = list(rd["supported"])
+        ans = rd["answer"]
+        ok_expected = ans["kind"] == "version" and ans["v"] in L
+        if len(reqs) != 1:
+            out.fail("not-exactly-one-initialize-request", f"round {k}: {seg!r}")
+            return out
+        if ok_expected:
+            if oc[0] != "return" or oc[1] != ans["v"]:
+                out.fail("supported-answer-rejected", f"round {k} of a re-negotiation: {oc!r}")
+                return out
+            if len(inits) != 1:
+                out.fail("initialized-notification-count-on-success", f"round {k} of {len(rounds)} on the same connection: {len(inits)} notifications (earlier rounds: {outcomes[:k]!r})")
+                return out
+        else:
+            if oc[0] == "return":
+                out.fail("settled-on-version-not-offered", f"round {k}: L={L} answer={ans!r} returned {oc[1]!r}")
+                return out
+            if ans["kind"] == "version" and not isinstance(oc[1], VersionMismatchError):
+                out.fail("unsupported-answer-not-version-mismatch", f"round {k}: {oc[1]!r}")
+            if inits:
+                out.fail("initialized-notification-sent-on-failure", f"round {k}: {inits!r}")
+                return out
+    return out
+
+
 def all_lists() -> List[List[str]]:
     out = []
     for n in (1, 2, 3):
@@ -322,13 +410,30 @@ def job_overlap(col: Collector, seed: int, tier: str) -> None:
         col.exhaustive_parts.append("overlapping handshakes: 42 lists (length<=2) x 6 peer versions x answer in {own proposal, the peer's proposal}")
 
 
-JOBS = {"enum": job_enum, "hyp": job_hyp, "overlap": job_overlap}
+def job_repeat(col: Collector, seed: int, tier: str) -> None:
+    """all sequences of 2 (and, in thorough, 3) handshakes over one connection from a 6-round alphabet"""
+    alpha = [
+        {"supported": ["2025-06-18", "2025-03-26"], "preferred": None, "answer": {"kind": "version", "v": "2025-06-18"}},
+        {"supported": ["2025-06-18", "2025-03-26"], "preferred": "2025-03-26", "answer": {"kind": "version", "v": "2025-06-18"}},
+        {"supported": ["2024-11-05"], "preferred": None, "answer": {"kind": "version", "v": "2025-06-18"}},  # mismatch
+        {"supported": ["draft", "2025-03-26"], "preferred": "draft", "answer": {"kind": "version", "v": "2025-03-26"}},
+        {"supported": ["2025-06-18"], "preferred": None, "answer": {"kind": "error", "code": -32603, "message": "x"}},
+        {"supported": ["2025-06-18"], "preferred": None, "answer": {"kind": "silence"}},
+    ]
+    for L in ((2,) if tier == "quick" else (2, 3)):
+        for combo in itertools.product(range(len(alpha)), repeat=L):
+            case = {"repeat": [alpha[i] for i in combo]}
+            col.record(case, check(case))
+    col.exhaustive_parts.append("re-negotiation: all sequences of 2 (thorough: and 3) handshakes over one connection from a 6-round alphabet (success, counter-proposal, mismatch, error, silence)")
+
+
+JOBS = {"enum": job_enum, "hyp": job_hyp, "overlap": job_overlap, "repeat": job_repeat}
 
 
 def jobs(tier: str):
     if tier == "quick":
-        return [("enum", {"shard": s, "nshards": 15}) for s in range(15)] + [("hyp", {"shard": 0, "n": 500}), ("overlap", {})]
-    return [("enum", {"shard": s, "nshards": 16}) for s in range(16)] + [("hyp", {"shard": s, "n": 2500}) for s in range(8)] + [("overlap", {})]
+        return [("enum", {"shard": s, "nshards": 15}) for s in range(15)] + [("hyp", {"shard": 0, "n": 500}), ("overlap", {}), ("repeat", {})]
+    return [("enum", {"shard": s, "nshards": 16}) for s in range(16)] + [("hyp", {"shard": s, "n": 2500}) for s in range(8)] + [("overlap", {}), ("repeat", {})]
 
 
 def shrink(signature: str, seed: int):
